@@ -256,6 +256,31 @@ fn multisets(n: usize, k: usize, start: usize, cur: &mut Vec<usize>, out: &mut V
     for i in start..n { cur.push(i); multisets(n, k, i, cur, out); cur.pop(); }
 }
 
+/// the attributes of a two-octet session as a four-octet session delivers the same content: every AS_PATH (code 2)
+/// that is a well-formed two-octet path re-written with four-octet AS numbers, a six-octet AGGREGATOR (code 7)
+/// widened to eight; everything else (also a path that does not parse) octet for octet
+fn widen_plan(plan: &[super::c10::PAttr]) -> Vec<super::c10::PAttr> {
+    fn widen_path(v: &[u8]) -> Option<Vec<u8>> {
+        let mut o = Vec::new();
+        let mut i = 0;
+        while i < v.len() {
+            let (t, n) = (*v.get(i)?, *v.get(i + 1)? as usize);
+            if !(1..=4).contains(&t) { return None; }
+            let body = v.get(i + 2..i + 2 + 2 * n)?;
+            o.push(t); o.push(n as u8);
+            for c in body.chunks(2) { o.extend([0, 0, c[0], c[1]]); }
+            i += 2 + 2 * n;
+        }
+        Some(o)
+    }
+    plan.iter().map(|a| {
+        let mut a = a.clone();
+        if a.code == 2 { if let Some(w) = widen_path(&a.val) { a.val = w; } }
+        if a.code == 7 && a.val.len() == 6 { let mut w = vec![0u8, 0]; w.extend(&a.val); a.val = w; }
+        a
+    }).collect()
+}
+
 impl Prop for C11 {
     fn gen(&self, rng: &mut Rng, tier: Tier) -> Vec<String> {
         let mut v = Vec::new();
@@ -317,24 +342,35 @@ impl Prop for C11 {
         // from different octets: attribute order, a repeated attribute behind the first) and exact duplicates
         for _ in 0..600 * k.min(20) {
             let n = if rng.chance(1, 6) { rng.usize(7, 20) } else { rng.usize(1, 6) };
-            let (_, four, ap) = super::c17::gen_sess(rng);
-            let eligible = |c: &PduCand| read_pdu(c).map_or(false, |r| ref_eligible(&r) && !may_be_refused(&r));
-            let mk = |rng: &mut Rng| -> (Vec<super::c10::PAttr>, RouteSpec) {
+            let (_, four0, ap0) = super::c17::gen_sess(rng);
+            // half of the lines also hold routes the oracle would let routecore refuse (undefined ORIGIN value, zero-length
+            // segment, malformed optional attribute: `may_be_refused`); routecore accepts them and they take part in the selection
+            let lax = rng.bool();
+            // 1 line in 3: candidates received in sessions of different AS number width / ADD-PATH mode on one line
+            let mixed = rng.chance(1, 3);
+            type Entry = (Vec<super::c10::PAttr>, RouteSpec, bool, bool);
+            let eligible = |c: &PduCand| read_pdu(c).map_or(false, |r| ref_eligible(&r) && (lax || !may_be_refused(&r)));
+            let mk = |rng: &mut Rng| -> Entry {
                 loop {
+                    let (four, ap) = if mixed && rng.bool() { let s = super::c17::gen_sess(rng); (s.1, s.2) } else { (four0, ap0) };
                     let (plan, tb) = (gen_plan(rng, four), random_tb(rng));
-                    if eligible(&PduCand { four, ap, pdu: plan_pdu(&plan, ap), tb: tb.clone() }) { return (plan, tb); }
+                    if eligible(&PduCand { four, ap, pdu: plan_pdu(&plan, ap), tb: tb.clone() }) { return (plan, tb, four, ap); }
                 }
             };
-            let mut pool: Vec<(Vec<super::c10::PAttr>, RouteSpec)> = (0..rng.usize(1, 3)).map(|_| mk(rng)).collect();
+            let mut pool: Vec<Entry> = (0..rng.usize(1, 3)).map(|_| mk(rng)).collect();
             let mut toks = Vec::new();
             for _ in 0..n {
-                let (plan, tb) = match rng.below(10) {
+                let (plan, tb, four, ap) = match rng.below(10) {
                     0..=3 => rng.pick(&pool).clone(),
                     4..=8 => {
-                        let (p, t) = rng.pick(&pool).clone();
-                        let (p, t) = if rng.chance(2, 3) { (edit_plan(rng, &p, four), t) } else { let mut t = mutate(&t, rng); t.lp = None; t.med = None; t.oid = None; t.cl = None; t.extra = 0; t.bogus = 0;
-                            t.path = super::c10::Slot::Absent; t.origin = super::c10::Slot::Absent; (p, t) };
-                        if eligible(&PduCand { four, ap, pdu: plan_pdu(&p, ap), tb: t.clone() }) || rng.chance(1, 20) { pool.push((p.clone(), t.clone())); (p, t) } else { pool[0].clone() }
+                        let (p, t, four, ap) = rng.pick(&pool).clone();
+                        // the same attributes as a session of the other kind delivers them: a two-octet AS_PATH / AGGREGATOR
+                        // widened to four octets (equal content from different octets), or the same octets with / without ADD-PATH
+                        let (p, t, four, ap) = if mixed && rng.chance(1, 3) {
+                            if !four && rng.bool() { (widen_plan(&p), t, true, ap) } else { (p, t, four, !ap) }
+                        } else if rng.chance(2, 3) { (edit_plan(rng, &p, four), t, four, ap) } else { let mut t = mutate(&t, rng); t.lp = None; t.med = None; t.oid = None; t.cl = None; t.extra = 0; t.bogus = 0;
+                            t.path = super::c10::Slot::Absent; t.origin = super::c10::Slot::Absent; t.origin_raw = false; (p, t, four, ap) };
+                        if eligible(&PduCand { four, ap, pdu: plan_pdu(&p, ap), tb: t.clone() }) || rng.chance(1, 20) { pool.push((p.clone(), t.clone(), four, ap)); (p, t, four, ap) } else { pool[0].clone() }
                     }
                     _ => mk(rng),
                 };
